@@ -3,11 +3,11 @@
    Assembly of: first set-up step (RefineE2EfSetup1 + prepare_IV: RefineE2EfHashA3), second set-up step (RefineE2EfSetup2: machine part;
    RefineE2EfSetup2A.gi_if_ok, RefineE2EfSetup2PA.pa_rest_ok: the sequential stretches), the concurrent phase for every schedule (RefineE2EfRun /
    WOk / Enc), the tear-down (RefineE2EfTail, hmac::writeFileHmac: RefineE2EfHashB3) and the file-level model (FileConcGlue, FileProofsDec).
-   execute_decrypt: see RefineE2EfDec2.decrypt_modulo_setup (closed modulo its set-up premise). *)
+   execute_decrypt (accepting path), CLOSED as well: RefineE2EfDecFinal2.decrypt_modulo_verify + RefineE2EfDecD1.dec_verify_ok. *)
 From Coq Require Import ZArith NArith List String Bool.
 From Wencry Require Import Bytes AesModel ModesModel HashModel FileModel FileProps MiniC MiniCRun MiniCLemmas MiniCConc SrcRun SrcRun2 SrcRun5.
 From Wencry Require Import RefineE2EfLay RefineE2EfEncDefs RefineE2EfHashSpec RefineE2EfHashB3 RefineE2EfSetup2Spec.
-From Wencry Require RefineE2EfSetup2A RefineE2EfSetup2PA RefineE2EfFinal4.
+From Wencry Require RefineE2EfSetup2A RefineE2EfSetup2PA RefineE2EfFinal4 RefineE2EfDecFinal2 RefineE2EfDecD1.
 Import ListNotations.
 Local Open Scope N_scope.
 
@@ -38,3 +38,17 @@ Proof.
            (second_step_seq_ok c hbuf T P key seed cm hm ke) rnd).
 Qed.
 Print Assumptions SRC_execute_encrypt_is_model_proof.
+
+Theorem SRC_execute_decrypt_is_model_on_accepted_files_proof : forall c hbuf T F key rnd out,
+  (1 <= c)%nat -> (1 <= hbuf)%nat -> N.of_nat (16 * c) < 2 ^ 32 -> N.of_nat (64 * hbuf) < 2 ^ 32 -> (1 <= T <= 16)%nat ->
+  block16 key -> bytesb F = true -> N.of_nat (length F) < 2 ^ 36 ->
+  dec c hbuf T F key = FileModel.Ok out ->
+  match src_decrypt_file c hbuf T F key rnd with
+  | SOk (b, o, i, _) => b = true /\ o = out /\ i = F
+  | SErr w => w = "out of fuel"%string \/ w = "step bound reached"%string
+  end.
+Proof.
+  intros c hbuf T F key rnd out Hc Hh Hc32 Hh32 HT Hkey HF HL Hdec.
+  exact (RefineE2EfDecFinal2.decrypt_modulo_verify RefineE2EfDecD1.dec_verify_ok c hbuf T F key rnd out Hc Hh Hc32 Hh32 HT Hkey HF HL Hdec).
+Qed.
+Print Assumptions SRC_execute_decrypt_is_model_on_accepted_files_proof.
